@@ -246,6 +246,14 @@ let () =
         | L [A "link"; A id; script; univ; ext] ->
             let r = run_link (d_list d_stmt script) (d_list d_usec univ) (d_list (d_pair d_str d_z) ext) in
             print_string id; print_char '\t'; print_string (ostr r); print_char '\n'
+(*SPEC
+        | L [A "valid"; A id; sd] ->
+            let d = d_document sd in
+            print_string id; print_char '\t';
+            print_string (if valid d then "{\"valid\":true," else "{\"valid\":false,");
+            print_string (if known_C16_null_plain_string d then "\"known\":true}" else "\"known\":false}");
+            print_char '\n'
+SPEC*)
         | _ -> raise (Bad "unknown case form")
       end
     done
